@@ -77,18 +77,29 @@ def generate(repo, out_path=OUT):
         raise Refuse("Directory::unlink: expected exactly one outermost #ifdef _WIN32 / #else / #endif")
     parts = [None, None, None, None, "\n".join(posix_lines)]
     posix = re.sub(r"\s+", " ", parts[4]).strip()
-    P = r"prefix \+ String\(str, String::length\(str\)\)"
+    # the path of the entry: `prefix + String(str, String::length(str))`, or a String variable that is rebuilt
+    # (`v.resize(n); v.append(str, String::length(str));`) directly before it is used
+    PE = r"(\w+ \+ String\(str, String::length\(str\)\)|\w+)"
+    BUILD = r"(?:(\w+)\.resize\(\w+\); \w+\.append\(str, String::length\(str\)\); )?"
     FAIL = r"\{ int lastErrno = errno; closedir\(dp\); errno = lastErrno; return false; \}"
     rx = (r"const char\* const str = dent->d_name; "
           r"bool isDir = dent->d_type == (DT_\w+); "
-          r"if\(dent->d_type == (DT_\w+)\) \{ struct stat buf; if\((\w+)\(" + P + r", &buf\) == 0 && S_ISDIR\(buf\.st_mode\)\) isDir = true; \} "
+          r"if\(dent->d_type == (DT_\w+)\) \{ struct stat buf; " + BUILD + r"if\((\w+)\(" + PE + r", &buf\) == 0 && S_ISDIR\(buf\.st_mode\)\) isDir = true; \} "
           r"if\(isDir && \*str == '\.' && \(str\[1\] == '\\0' \|\| \(str\[1\] == '\.' && str\[2\] == '\\0'\)\)\) continue; "
-          r"if\(isDir\) \{ if\(!unlink\(" + P + r", true\)\) " + FAIL + r" \} "
-          r"else if\(!File::unlink\(" + P + r"\)\) " + FAIL + r" \}")
+          + BUILD +
+          r"if\(isDir\) \{ if\(!unlink\(" + PE + r", true\)\) " + FAIL + r" \} "
+          r"else if\(!File::unlink\(" + PE + r"\)\) " + FAIL + r" \}")
     mm = re.search(rx, posix)
     if not mm:
         raise Refuse("Directory::unlink: the entry-type decision of the readdir loop has a shape the translator does not understand")
-    tag1, tag2, statfn = mm.group(1), mm.group(2), mm.group(3)
+    tag1, tag2, b1, statfn, p1, b2, p2, p3 = mm.groups()
+    if not (p1 == p2 == p3):
+        raise Refuse(f"Directory::unlink: the type test and the removal use different paths ({p1} / {p2} / {p3})")
+    if re.fullmatch(r"\w+", p1):
+        if b1 != p1 or b2 != p1:
+            raise Refuse(f"Directory::unlink: the path variable {p1} is not rebuilt directly before its use")
+    elif b1 or b2:
+        raise Refuse("Directory::unlink: path buffer rebuilt but not used")
     if tag1 not in TAGS or tag2 not in TAGS:
         raise Refuse(f"Directory::unlink: unknown d_type tag {tag1} / {tag2}")
     if statfn not in ("stat", "lstat"):
